@@ -6,6 +6,11 @@ HERE = os.path.dirname(os.path.dirname(os.path.abspath(__file__)))
 
 # id -> (category, technique, level text, level note, design ref)
 CHECKS = {
+ "C06": ("exploration",
+         "exhaustive enumeration + property-based testing against a reference allocator model",
+         "Every sequence of up to 3 (quick) / 4 (thorough) global declarations over a 32-symbol alphabet (8 resource kind classes x array or not x explicit group or not) is compiled for DirectX, Vulkan, Vulkan with buffer addresses and Metal, in no-pipeline mode and with DefaultBindGroup 0 and 1; random sequences of 1-24 declarations cover the full alphabet (16 kinds, lengths 1-3, groups 0-2 in four spellings, default groups 0-2). The returned metadata must equal a reference bump allocator and, independently of the model, the slot ranges of each group must be disjoint and gap-free from zero. Exhaustive within the stated length; sampled beyond.",
+         "Trusted: the reference allocator in harness/src/c06.rs. The property's exhaustive bound (length 6 over the full alphabet) is far larger than what is enumerated; arrays of buffer addresses and unbounded arrays are outside the property and not generated.",
+         "DESIGN.md section 3, C06"),
  "C16": ("exploration",
          "property-based testing: permutation metamorphic relation + rank-table oracle",
          "Random sets of 2-5 overloads (1-3 parameters over six scalars x four widths x in/out/inout, each returning a distinct struct) are compiled under every permutation of their declaration order (up to 120) with random argument tuples (lvalues, rvalues, untyped literals); the selected overload is read from the assert_type diagnostic. The outcome must be identical for all permutations, a unique exact match must win, the winner must be viable and not dominated under the documented rank table, and a sole viable candidate must be selected. 6 000 sets quick, 150 000 thorough.",
